@@ -124,6 +124,7 @@ type Recorder struct {
 	counters map[string]int
 	viol     []Violation
 	violSeen map[string]bool
+	alias    map[string][2]string
 }
 
 func NewRecorder(keep bool) *Recorder {
@@ -171,7 +172,29 @@ func (r *Recorder) Counters() map[string]int {
 	return m
 }
 
+// Alias makes every violation of (prop, oracle) also count as a violation of
+// another property under another oracle name (used where one property is the
+// restriction of others to a particular path, e.g. C10 = C01/C02/C05 on the sync path).
+func (r *Recorder) Alias(prop, oracle, asProp, asOracle string) {
+	r.mu.Lock()
+	if r.alias == nil {
+		r.alias = map[string][2]string{}
+	}
+	r.alias[prop+"/"+oracle] = [2]string{asProp, asOracle}
+	r.mu.Unlock()
+}
+
 func (r *Recorder) Violate(prop, oracle, facts, format string, a ...any) {
+	r.mu.Lock()
+	al, ok := r.alias[prop+"/"+oracle]
+	r.mu.Unlock()
+	if ok {
+		r.violate1(al[0], al[1], facts, format, a...)
+	}
+	r.violate1(prop, oracle, facts, format, a...)
+}
+
+func (r *Recorder) violate1(prop, oracle, facts, format string, a ...any) {
 	v := Violation{Prop: prop, Oracle: oracle, Facts: facts, Detail: fmt.Sprintf(format, a...), T: time.Now().UnixNano()}
 	r.mu.Lock()
 	defer r.mu.Unlock()
